@@ -162,7 +162,7 @@ def conforms(data, selection_set, type_, schema, fragments, path="$"):
             if data[k] != type_.name:
                 return f"{path}.{k}: __typename"
             continue
-        fdef = type_.fields.get(sel.name.value)
+        fdef = schema.get_field(type_, sel.name.value)
         if fdef is None:
             return f"{path}.{k}: no such field on {type_.name}"
         e = conforms(data[k], sel.selection_set, fdef.type, schema, fragments, f"{path}.{k}")
@@ -370,9 +370,23 @@ def run(tier):
     fragments_text = full_query[full_query.index("fragment FullType"):]
     lookup_query = "query L($n: String!) { __type(name: $n) { ...FullType } }\n" + fragments_text
     n_schemas = 40 if quick else 300
-    cases, meta = [], []
     validated = set()
+    n_model_cases = [0]
+
+    def run_model(cases, meta):
+        # per schema, to keep the wire data of only one schema in memory
+        outs = m.run_batch(cases)
+        for (key, rep, what, want), o in zip(meta, outs):
+            if not o or o[0] != 1:
+                raise RuntimeError("model could not decode a case (codec bug)")
+            got = G.r_json(G.Reader(o, 1))
+            d = json_diff(want, got)
+            if d:
+                ck.violation(key, f"model disagrees: {what}: {d} (first = implementation)", rep)
+        n_model_cases[0] += len(cases)
+
     for i in range(n_schemas):
+        cases, meta = [], []
         spec = G.gen_spec(rng, size=rng.randint(1, 3), adversarial=i % 4 != 0, directive_deprecation=i % 2 == 0)
         sdl = G.spec_to_sdl(spec)
         mode = "sdl" if i % 2 == 0 else "prog"
@@ -480,6 +494,7 @@ def run(tier):
             if d:
                 ck.violation(key, f"ad-hoc selection differs from the projection of the full result: {d}", rep)
             ck.count("adhoc_queries")
+        run_model(cases, meta)
         # -- client schema
         key = f"{key0}:client"
         try:
@@ -507,16 +522,7 @@ def run(tier):
                 ck.violation(key, f"introspection of the client schema differs from the original's: {d}", rep0)
         except Exception as e:  # noqa: BLE001
             ck.violation(key, f"introspection of the client schema raised {type(e).__name__}: {e}", rep0)
-    # ---- model answers
-    outs = m.run_batch(cases)
-    for (key, rep, what, want), o in zip(meta, outs):
-        if not o or o[0] != 1:
-            raise RuntimeError("model could not decode a case (codec bug)")
-        got = G.r_json(G.Reader(o, 1))
-        d = json_diff(want, got)
-        if d:
-            ck.violation(key, f"model disagrees: {what}: {d} (first = implementation)", rep)
-    ck.count("model_cases", len(cases))
+    ck.count("model_cases", n_model_cases[0])
     ck.extra["option_combinations_exercised"] = len(validated)
     ck.samples.append({"options": OPTS, "full_query_head": full_query[:200]})
     return ck.finish()
